@@ -13,30 +13,46 @@ import symtable
 import sys
 
 
-def _unparse_fstrings(node: ast.expr) -> ast.expr:
+def _unparse_for_old_versions(node: ast.expr) -> ast.expr:
     """
-    Since python 3.12, ast.unparse reuses the quote of an f-string in its replacement fields
-    (e.g. f'{d['key']}'), which is a syntax error before python 3.12.
-    The f-strings are unparsed by expr_unparse (which never reuses the quote),
+    The ast.unparse of the new versions of python writes some nodes
+    in the syntax which is not accepted by the old versions
+    (on which the converted script should be able to run):
+
+    - since python 3.12, the quote of an f-string is reused in its replacement fields
+      (e.g. f'{d['key']}'), which is a syntax error before python 3.12.
+    - since python 3.11, a starred tuple index is written without parentheses
+      (e.g. a[*b, 1]), which is a syntax error before python 3.11.
+
+    These nodes are unparsed by expr_unparse,
     the result is put in the tree as a name, which is written as it is by ast.unparse.
     """
+
+    def need_replace(field_name, sub_node):
+        if isinstance(sub_node, ast.JoinedStr):
+            return sys.version_info >= (3, 12)
+        return (
+            field_name == "slice"
+            and isinstance(sub_node, ast.Tuple)
+            and any(isinstance(item, ast.Starred) for item in sub_node.elts)
+        )
 
     def replace(sub_node):
         return ast.Name(id=expr_unparse(sub_node), ctx=ast.Load())
 
-    if isinstance(node, ast.JoinedStr):
+    if need_replace(None, node):
         return replace(node)
     stack: list[ast.AST] = [node]
     while stack:
         sub_node = stack.pop()
         for field_name, field in ast.iter_fields(sub_node):
-            if isinstance(field, ast.JoinedStr):
+            if need_replace(field_name, field):
                 setattr(sub_node, field_name, replace(field))
             elif isinstance(field, ast.AST):
                 stack.append(field)
             elif isinstance(field, list):
                 for index, item in enumerate(field):
-                    if isinstance(item, ast.JoinedStr):
+                    if need_replace(field_name, item):
                         field[index] = replace(item)
                     elif isinstance(item, ast.AST):
                         stack.append(item)
@@ -54,8 +70,8 @@ def convert_code_string(code: str, filename="<string>", configs: Configs | None 
     if configs.unparser == "oneliner":
         return expr_unparse(out)
     else:
-        if sys.version_info >= (3, 12):
-            out = _unparse_fstrings(out)
+        if sys.version_info >= (3, 11):
+            out = _unparse_for_old_versions(out)
         try:
             return ast.unparse(out).replace("\n", "")
         except RecursionError:
